@@ -197,6 +197,7 @@ func (m *Machine) model(vars []*Term, extra ...*Term) (SatResult, map[string]uin
 func (m *Machine) forkFree(v *Term, n int) int {
 	idx := m.dpos
 	m.dpos++
+	m.branches++
 	var d int
 	if idx < len(m.prefix) {
 		d = m.prefix[idx]
